@@ -250,16 +250,18 @@ def _encode_etcd(i, o):
 
 def _encode_x(i, o):
     cfgs = list(i["cfgs"])
+    olds = [None] * len(cfgs)
     steps, k = [], 0
     obs = o.get("steps") or []
     for st in i["steps"]:
         if st.get("reload") is not None:
+            olds[st["inst"]] = cfgs[st["inst"]]
             cfgs[st["inst"]] = st["reload"]
             continue
         if k >= len(obs):
             break
         rec = dict(i["cases"][st["case"]])
-        rec["cfg"] = cfgs[st["inst"]]
+        rec["cfg"] = olds[st["inst"]] if st.get("old") else cfgs[st["inst"]]
         if rec["cfg"].get("oauth2"):
             raise ValueError("a request was presented to an oauth2 instance: that method is not modelled")
         steps.append(_encode_v(rec, obs[k]))
